@@ -267,6 +267,19 @@ def run_C14(res):
             lim = ("movetime", rnd.choice([1, 5, 15]))
         lims.append(lim)
         reqs.append(f"root {p} {hist_str(h)} 1 {lim[0]} {lim[1]}")
+    # node limits exactly at (and next to) the cumulative node count at the end of an iteration: the boundary of the node rule
+    probe = roots[: (25 if res.tier == "quick" else 400)]
+    pr_out = run_hx_par([f"root {p} {hist_str(h)} 1 depth 4" for p, h in probe])
+    for (p, h), o in zip(probe, pr_out):
+        q = parse_root(o)
+        if q["panic"]:
+            continue
+        for x in q["infos"]:
+            if x["depth"] >= 2:
+                for n in (x["nodes"], x["nodes"] + 1, x["nodes"] - 1):
+                    lims.append(("nodes", n))
+                    reqs.append(f"root {p} {hist_str(h)} 1 nodes {n}")
+                    res.count("node_limit_at_iteration_boundary")
     impl = run_hx_par(reqs)
     di = [i for i, l in enumerate(lims) if l[0] != "movetime"]
     model = dict(zip(di, run_driver_par([reqs[i] for i in di])))
@@ -326,6 +339,11 @@ def run_C12(res):
     with concurrent.futures.ThreadPoolExecutor(16) as ex:
         chunks = list(ex.map(lambda i: run_driver([f"gmate {res.seed * 31 + i} {n // 16} {1 if i % 4 == 3 else 0}"]), range(16)))
     ps = [l for ch in chunks for l in ch if l and l != "bad-op"]
+    with concurrent.futures.ThreadPoolExecutor(16) as ex:
+        chunks = list(ex.map(lambda i: run_driver([f"gmateu {res.seed * 17 + i} {1500 if res.tier == 'quick' else 30000}"]), range(16)))
+    under = [l for ch in chunks for l in ch if l and l != "bad-op"]
+    res.count("mates_by_underpromotion", len(under))
+    ps = under[: (40 if res.tier == "quick" else 800)] + ps
     gs = games(res, 6 if res.tier == "quick" else 60, 80, 0, 200)
     cand = [p for g in gs for p in g]
     # mates in one met in playouts / test FENs as well
